@@ -126,6 +126,7 @@ class Program:
     aux_verus: str = ''                 # the same items for Verus (with contracts)
     enum_attr_groups: Optional[List[List[str]]] = None
     tags: List[str] = field(default_factory=list)           # free-form labels (corpus axes)
+    inner: Optional['Program'] = None   # a second derived enum of the same group (nested inside a transparent variant)
     kani_rust: str = ''                 # #[cfg(kani)] child module text (harnesses on the real derives)
     extra_rust: str = ''                # rustc-level obligations (type-level clauses) placed after the enum
 
@@ -138,8 +139,8 @@ class Program:
             '#[allow(unused_imports)] use strum::{IntoEnumIterator, EnumCount, VariantNames, VariantArray, EnumMessage, EnumProperty, IntoDiscriminant};',
             '#[allow(unused_imports)] use core::str::FromStr;',
             '#[allow(unused_imports)] use core::convert::TryFrom;',
-            '#[allow(unused_imports)] use crate::Tag;',
-            self.aux_rust, self.rust_source(), self.extra_rust, self.kani_rust, ''])
+            '#[allow(unused_imports)] use crate::{Tag, Cap, PErr, perr, dw_u8, dw_i32, dw_tag};',
+            self.aux_rust, (self.inner.rust_source() if self.inner else ''), self.rust_source(), self.extra_rust, self.kani_rust, ''])
 
     def enabled(self):
         return [v for v in self.variants if not v.disabled]
